@@ -31,11 +31,13 @@ M = [
 ("n03_auth_or", "C03", S, "        elif await self.user_manager.authenticate(connection.user, rest):", "        elif await self.user_manager.authenticate(connection.user, rest) or not rest:", "C03.WRITE"),
 ("n03_ctor_logged", "C03", S, "            acquired=False,\n", "            acquired=False,\n            logged=False,\n", "C03.INIT"),
 ("n03_authenticate_weak", "C03", S, "        return user.password == password", "        return user.password == password or password == \"\"", "C03.MGR"),
-("n04_order_swap_benign", "C04-benign", S, '''    @PathConditions(PathConditions.path_must_not_exists)
+# was listed as benign until round 6 (C04-r6-2) demonstrated the break: with pipelined commands a CWD runs while the inner guard awaits exists(),
+# and the handler resolves the relative argument again - against the new directory
+("n04_order_swap", "C04", S, '''    @PathConditions(PathConditions.path_must_not_exists)
     @PathPermissions(PathPermissions.writable)
     async def mkd''', '''    @PathPermissions(PathPermissions.writable)
     @PathConditions(PathConditions.path_must_not_exists)
-    async def mkd''', "none"),
+    async def mkd''', "C04.ATOMIC"),
 ("n04_cwd_writable", "C04", S, '''    @PathPermissions(PathPermissions.readable)
     async def cwd''', '''    @PathPermissions(PathPermissions.writable)
     async def cwd''', "C04.KIND"),
